@@ -309,12 +309,15 @@ fn run_all(st: &mut Stats, thorough: bool) {
     forms!(st, HyperDualVec<f64, f64, Dyn, Dyn>, f64, Dims::mn(1, 2));
     forms!(st, Dual<Dual64, f64>, f64, Dims::NONE);
     forms!(st, DualVec<Dual64, f64, Const<2>>, f64, Dims::n(2));
+    // nested second- and third-order types: the chain rules act on inner numbers there
+    forms!(st, Dual3<Dual64, f64>, f64, Dims::NONE);
+    forms!(st, Dual2<Dual64, f64>, f64, Dims::NONE);
+    forms!(st, HyperHyperDual<Dual64, f64>, f64, Dims::NONE);
+    forms!(st, Dual2Vec<Dual64, f64, Const<2>>, f64, Dims::n(2));
     if thorough {
-        forms!(st, Dual2<Dual64, f64>, f64, Dims::NONE);
         forms!(st, Dual2Vec<f32, f32, Const<2>>, f32, Dims::n(2));
         forms!(st, HyperDualVec<f32, f32, Dyn, Dyn>, f32, Dims::mn(2, 2));
         forms!(st, HyperDual<Dual64, f64>, f64, Dims::NONE);
-        forms!(st, Dual3<Dual64, f64>, f64, Dims::NONE);
         forms!(st, DualVec<f64, f64, Const<6>>, f64, Dims::n(6));
         forms!(st, Dual2Vec<f64, f64, Dyn>, f64, Dims::n(0));
     }
